@@ -542,3 +542,31 @@ def exits_missing_call(fn, pred):
   if walk(fn.body, True):
     missing.append(fn)
   return missing
+
+
+def reaching_def(fn, name, at):
+  """The value of the assignment `name = value` that reaches `at` along its own block structure: the last plain assignment to the
+  name before `at` in the statement list that contains it or in an enclosing one, provided no compound statement in between
+  also assigns it.  None if there is none or it is ambiguous."""
+  pm = parents(fn)
+  node = at
+  while node is not None and not isinstance(node, ast.stmt):
+    node = pm.get(id(node))
+  child = node
+  cur = pm.get(id(child)) if child is not None else None
+  while cur is not None:
+    for field in ('body', 'orelse', 'finalbody'):
+      blk = getattr(cur, field, None)
+      if isinstance(blk, list) and any(child is s for s in blk):
+        idx = next(i for i, s in enumerate(blk) if s is child)
+        for prev in reversed(blk[:idx]):
+          if isinstance(prev, ast.Assign) and len(prev.targets) == 1 and isinstance(prev.targets[0], ast.Name) and prev.targets[0].id == name:
+            return prev.value
+          if any(isinstance(x, ast.Name) and x.id == name and isinstance(x.ctx, ast.Store) for x in ast.walk(prev)):
+            return None
+    if isinstance(cur, (ast.For, ast.While)) and any(isinstance(x, ast.Name) and x.id == name and isinstance(x.ctx, ast.Store) for x in ast.walk(cur)):
+      return None       # may be re-assigned by a later statement of an earlier iteration
+    if isinstance(cur, (ast.FunctionDef, ast.AsyncFunctionDef)):
+      break
+    child, cur = cur, pm.get(id(cur))
+  return None
